@@ -123,6 +123,7 @@ pub fn reader_transcript<R: Read + Seek + Clone>(
                 c = cl;
                 continue;
             }
+            Op::Swap => continue,
         };
         t.push(rd::apply(&mut c, &cop)?);
     }
@@ -249,8 +250,26 @@ impl Prop for C11 {
             conf.parallel = false;
             Case::Sorter { conf, kind, src, tape, exit }
         });
+        // blocks whose STORED (compressed) size exceeds 1 MiB: one incompressible value of 1.1..1.7 MB
+        let huge_spec = (
+            prop::sample::select(vec![crate::common::Codec::Snappy, crate::common::Codec::SnappyPre05, crate::common::Codec::Zlib, crate::common::Codec::Lz4, crate::common::Codec::Zstd, crate::common::Codec::None]),
+            0u32..=3,
+            prop_oneof![Just(None), Just(Some(1024usize))],
+            0u8..=2,
+            (1_100_000u32..1_700_000, any::<u64>()),
+            vec((gen::key_ascii(), gen::val_small()), 0..4),
+        )
+            .prop_map(|(codec, level, block_size, levels, (n, seed), mut rest)| {
+                rest.push((crate::common::Blob::Lit(b"huge".to_vec()), crate::common::Blob::Rand { n, seed }));
+                FileSpec { conf: crate::common::WConf { codec, level, block_size, interval: None, levels }, src: crate::common::EntrySrc::List(rest) }
+            });
+        let huge_reader = (huge_spec.clone(), tape(), vec(gen::probe(), 0..3), gen::history(10))
+            .prop_map(|(spec, tape, probes, ops)| Case::Reader { spec, tape, probes, ranges: vec![], prefixes: vec![], ops, v1: false });
+        let huge_writer = (huge_spec, tape()).prop_map(|(spec, tape)| Case::Writer { spec, tape });
         let n = tier.pick(600, 18_000);
         vec![
+            stage("huge-block-reader", huge_reader, tier.pick(48, 800)).shrink(10),
+            stage("huge-block-writer", huge_writer, tier.pick(32, 400)).shrink(10),
             stage("writer", writer, n).shrink(400),
             stage("reader", reader, n).shrink(400),
             stage("merger", merger, n * 2 / 3).shrink(300),
@@ -275,7 +294,7 @@ impl Prop for C11 {
 
     fn health(&self, tier: Tier) -> Vec<(&'static str, u64)> {
         let m = tier.pick(1, 30);
-        vec![("io:writer:nontrivial", 100 * m), ("io:reader:nontrivial", 100 * m), ("io:merger:nontrivial", 60 * m), ("io:sorter:nontrivial", 40 * m), ("io:reader:lz4", 40 * m)]
+        vec![("io:reader:block>1MiB", 30 * m.min(10)), ("io:writer:nontrivial", 100 * m), ("io:reader:nontrivial", 100 * m), ("io:merger:nontrivial", 60 * m), ("io:sorter:nontrivial", 40 * m), ("io:reader:lz4", 40 * m)]
     }
 
     fn run(&self, case: &Case, obs: &mut Obs) -> Check {
@@ -330,6 +349,9 @@ impl Prop for C11 {
                     );
                 }
                 obs.class("io:reader");
+                if bytes.len() > 1 << 20 {
+                    obs.class("io:reader:block>1MiB");
+                }
                 obs.nontrivial = nt(&ctl, spec.conf.codec);
                 if obs.nontrivial {
                     obs.class("io:reader:nontrivial");
